@@ -134,6 +134,7 @@ func vfHdr(base, off uintptr) *table.SDTHeader { return (*table.SDTHeader)(unsaf
 
 // Enumeration: a table is registered under its signature iff its bytes sum to zero; bad tables are
 // reported and skipped; a checksum-valid FADT additionally registers the DSDT it points to.
+//
 //verif:split 4
 func Verif_C14_enumerate() {
 	ne := zzverif.Param("tables", 1, 3)
